@@ -152,8 +152,10 @@ int main(int argc, char** argv) {
         std::string label = "scriptSig=" + std::to_string(l1) + " scriptPubKey=" + std::to_string(l2) + " witness item=" + std::to_string(l3);
         items.push_back({[=](Violations& V, auto& h) { check_tx_string(hex(ser_tx(t)), {}, label, "lengths", V, h); }});
     }
-    // many inputs / outputs / witness items across the 252/253 count boundary
-    for (int n : {252, 253, 254}) {
+    // many inputs / outputs / witness items: across the 252/253 count boundary, and counts that are no classic boundary at all (a reader that
+    // pre-allocates a capped number of elements, a 16-bit counter, a table of N entries go wrong somewhere in between)
+    for (int n : {252, 253, 254, 300, 316, 400, 820, 1000, 1366, 1500, 4097, 32769, 65535, 65536, 70000}) {
+        if (!th && n > 1500 && n != 65536) continue;
         { Tx t = make_tx(1, 1, {0}, 0, 1, 0, 2, 0, 0, 1); for (int i = 1; i < n; i++) t.vin.push_back(t.vin[0]); items.push_back({[=](Violations& V, auto& h) { check_tx_string(hex(ser_tx(t)), {}, std::to_string(n) + " inputs", "counts", V, h); }}); }
         { Tx t = make_tx(1, 1, {0}, 0, 1, 0, 2, 0, 0, 1); for (int i = 1; i < n; i++) t.vout.push_back(t.vout[0]); items.push_back({[=](Violations& V, auto& h) { check_tx_string(hex(ser_tx(t)), {}, std::to_string(n) + " outputs", "counts", V, h); }}); }
         { Tx t = make_tx(1, 1, {1}, 0, 1, 1, 2, 0, 0, 1); for (int i = 1; i < n; i++) t.vin[0].witness.push_back(bytes{uint8_t(i)}); items.push_back({[=](Violations& V, auto& h) { check_tx_string(hex(ser_tx(t)), {}, std::to_string(n) + " witness items", "counts", V, h); }}); }
